@@ -359,11 +359,11 @@ impl World {
         format!("answered={} links={}", answered.0, links)
     }
 
-    pub fn udp_multi(&self, apps: usize, targets: usize, per: usize, seed: u64) -> String {
+    pub fn udp_multi(&self, apps: usize, targets: usize, per: usize, seed: u64, mix: bool) -> String {
         if !self.udp {
             return "no-udp".to_owned();
         }
-        self.rt.block_on(udp_multi(self.client_port, apps, targets, per, seed))
+        self.rt.block_on(udp_multi(self.client_port, apps, targets, per, seed, mix))
     }
 
     /// several fresh udp sessions of a bare client against the real server: the (server session id, packet id)
@@ -921,6 +921,91 @@ impl World {
         if asked == 0 || under_way == 0 { format!("n/a:asked={},questions={}", asked, under_way) } else { verdict }
     }
 
+    /// one udp session that floods in both directions at once: its client sends datagrams as fast as it can while its
+    /// target answers as fast as it can, for `millis`; afterwards the service must still relay for everybody else
+    pub fn udp_flood(&self, millis: u64) -> String {
+        if self.protocol != "shadowsocks" || !self.udp {
+            return "n/a".to_owned();
+        }
+        let sessions: usize = std::env::var("VERIF_FLOOD_SESSIONS").ok().and_then(|s| s.parse().ok()).unwrap_or(40);
+        let Ok(mut c) = crate::ssudp::client(&self.rt, &self.cipher, &self.client_password) else { return "n/a".to_owned() };
+        let Ok(target) = std::net::UdpSocket::bind("127.0.0.1:0") else { return "no-loopback".to_owned() };
+        let taddr = target.local_addr().unwrap();
+        let _ = target.set_read_timeout(Some(Duration::from_millis(20)));
+        let stop = Arc::new(std::sync::atomic::AtomicBool::new(false));
+        let answers = Arc::new(std::sync::atomic::AtomicUsize::new(0));
+        let sp = self.server_port;
+        // the sessions: one socket each, one datagram each opens its association
+        let Ok(w) = c.encode(Address::Socket(taddr), &[0x51u8; 300]) else { return "encode-failed".to_owned() };
+        let apps: Vec<std::net::UdpSocket> = (0..sessions).filter_map(|_| std::net::UdpSocket::bind("127.0.0.1:0").ok()).collect();
+        for a in &apps {
+            let _ = a.set_nonblocking(true);
+            let _ = a.send_to(&w, ("127.0.0.1", sp));
+        }
+        // the target learns the associations' addresses, then answers all of them as fast as it can
+        let mut peers = vec![];
+        let mut buf = [0u8; 2048];
+        let t0 = std::time::Instant::now();
+        while peers.len() < apps.len() && t0.elapsed() < Duration::from_secs(3) {
+            if let Ok((_, from)) = target.recv_from(&mut buf) {
+                if !peers.contains(&from) {
+                    peers.push(from);
+                }
+            }
+        }
+        let npeers = peers.len();
+        let _ = target.set_nonblocking(true);
+        let mut threads = vec![];
+        for k in 0..3 {
+            let (stop, answers, target, peers) = (stop.clone(), answers.clone(), target.try_clone().unwrap(), peers.clone());
+            threads.push(std::thread::spawn(move || {
+                let mut buf = [0u8; 2048];
+                let reply = [0x52u8; 600];
+                let mut i = k;
+                while !stop.load(std::sync::atomic::Ordering::SeqCst) {
+                    for _ in 0..64 {
+                        i = (i + 1) % peers.len().max(1);
+                        if let Some(p) = peers.get(i) {
+                            if target.send_to(&reply, p).is_ok() {
+                                answers.fetch_add(1, std::sync::atomic::Ordering::Relaxed);
+                            }
+                        }
+                    }
+                    while target.recv_from(&mut buf).is_ok() {}
+                }
+            }));
+        }
+        // the first session floods the server
+        let sent_ctr = Arc::new(std::sync::atomic::AtomicUsize::new(0));
+        for _ in 0..3 {
+            let (app, w, stop, sent_ctr) = (apps[0].try_clone().unwrap(), w.clone(), stop.clone(), sent_ctr.clone());
+            threads.push(std::thread::spawn(move || {
+                let mut buf = [0u8; 2048];
+                while !stop.load(std::sync::atomic::Ordering::SeqCst) {
+                    for _ in 0..64 {
+                        if app.send_to(&w, ("127.0.0.1", sp)).is_ok() {
+                            sent_ctr.fetch_add(1, std::sync::atomic::Ordering::Relaxed);
+                        }
+                    }
+                    while app.recv_from(&mut buf).is_ok() {}
+                }
+            }));
+        }
+        let t0 = std::time::Instant::now();
+        while t0.elapsed() < Duration::from_millis(millis) {
+            std::thread::sleep(Duration::from_millis(20));
+        }
+        stop.store(true, std::sync::atomic::Ordering::SeqCst);
+        for s in threads {
+            let _ = s.join();
+        }
+        std::thread::sleep(Duration::from_millis(600));
+        if std::env::var("VERIF_FLOOD_STATS").is_ok() {
+            eprintln!("flood: sessions={} sent={} answers={}", npeers, sent_ctr.load(std::sync::atomic::Ordering::SeqCst), answers.load(std::sync::atomic::Ordering::SeqCst));
+        }
+        "done".to_owned()
+    }
+
     pub fn alive(&self) -> String {
         let dead: Vec<usize> = self.tasks.iter().enumerate().filter(|(_, t)| t.is_finished()).map(|(i, _)| i).collect();
         if dead.is_empty() { "alive".to_owned() } else { format!("ended:{:?}", dead).replace(' ', "") }
@@ -1307,11 +1392,45 @@ pub async fn udp_flow(client_port: u16, payloads: Vec<Vec<u8>>) -> String {
 /// `apps` local applications, each sending `per` rounds of datagrams to each of `targets` scripted udp targets
 /// (every target answers `re<k>:` + what it got): every target receives exactly what was addressed to it, every
 /// application gets each answer back labelled with the answering target, and nothing else
-pub async fn udp_multi(client_port: u16, apps: usize, targets: usize, per: usize, seed: u64) -> String {
+/// `mix`: the targets are named in three ways - an address 127.0.0.1:p, an address 127.0.0.2:p', a name localhost:p'' -
+/// with the ports chosen so that every 127.0.0.2 port < every name's port < every 127.0.0.1 port (the orders "by
+/// address" and "by port" disagree on them)
+pub async fn udp_multi(client_port: u16, apps: usize, targets: usize, per: usize, seed: u64, mix: bool) -> String {
     let mut tsocks = vec![];
-    for _ in 0..targets {
-        let Ok(t) = UdpSocket::bind("127.0.0.1:0").await else { return "no-loopback".to_owned() };
-        tsocks.push(Arc::new(t));
+    // kind of target k: 0 = 127.0.0.1 by address, 1 = 127.0.0.2 by address, 2 = localhost by name
+    let kind = |k: usize| if mix { k % 3 } else { 0 };
+    if mix {
+        let mut c1 = vec![];
+        let mut c2 = vec![];
+        for _ in 0..(4 * targets + 8) {
+            if let Ok(s) = UdpSocket::bind("127.0.0.1:0").await {
+                c1.push(s);
+            }
+            if let Ok(s) = UdpSocket::bind("127.0.0.2:0").await {
+                c2.push(s);
+            }
+        }
+        c1.sort_by_key(|s| s.local_addr().unwrap().port());
+        c2.sort_by_key(|s| s.local_addr().unwrap().port());
+        let need = |k: usize| (0..targets).filter(|i| i % 3 == k).count();
+        // lowest 127.0.0.2 ports; then names above them; then the highest 127.0.0.1 ports
+        let mut low: Vec<UdpSocket> = c2.drain(..need(1).min(c2.len())).collect();
+        let top = low.last().map(|s| s.local_addr().unwrap().port()).unwrap_or(0);
+        c1.retain(|s| s.local_addr().unwrap().port() > top);
+        if c1.len() < need(0) + need(2) || low.len() < need(1) {
+            return "no-loopback".to_owned();
+        }
+        let mut names: Vec<UdpSocket> = c1.drain(..need(2)).collect();
+        let mut high: Vec<UdpSocket> = c1.drain(c1.len() - need(0)..).collect();
+        for k in 0..targets {
+            let s = match k % 3 { 0 => high.pop(), 1 => low.pop(), _ => names.pop() };
+            tsocks.push(Arc::new(s.unwrap()));
+        }
+    } else {
+        for _ in 0..targets {
+            let Ok(t) = UdpSocket::bind("127.0.0.1:0").await else { return "no-loopback".to_owned() };
+            tsocks.push(Arc::new(t));
+        }
     }
     let tports: Vec<u16> = tsocks.iter().map(|t| t.local_addr().unwrap().port()).collect();
     let seen: Arc<Mutex<Vec<Vec<Vec<u8>>>>> = Arc::new(Mutex::new(vec![vec![]; targets]));
@@ -1343,7 +1462,11 @@ pub async fn udp_multi(client_port: u16, apps: usize, targets: usize, per: usize
                 let n = [1usize, 20, 300, 1200][(r + ai + k) % 4];
                 let mut payload = format!("a{}t{}r{}:", ai, k, r).into_bytes();
                 payload.extend(rng.bytes(n));
-                let mut d = vec![0u8, 0, 0, 1, 127, 0, 0, 1];
+                let mut d = match kind(k) {
+                    0 => vec![0u8, 0, 0, 1, 127, 0, 0, 1],
+                    1 => vec![0u8, 0, 0, 1, 127, 0, 0, 2],
+                    _ => [&[0u8, 0, 0, 3, 9][..], b"localhost"].concat(),
+                };
                 d.extend_from_slice(&tports[k].to_be_bytes());
                 let header = d.clone();
                 d.extend_from_slice(&payload);
@@ -1351,8 +1474,11 @@ pub async fn udp_multi(client_port: u16, apps: usize, targets: usize, per: usize
                 want[k].push(payload.clone());
                 match tokio::time::timeout(Duration::from_secs(3), a.recv_from(&mut buf)).await {
                     Ok(Ok((l, _))) => {
-                        let expect = [header, format!("re{}:", k).into_bytes(), payload].concat();
-                        if buf[..l] != expect[..] {
+                        // (how the answer names the target it came from is the protocol's business when the target was a
+                        // name: the address it resolved to, or the name)
+                        let tail = [format!("re{}:", k).into_bytes(), payload].concat();
+                        let expect = [header, tail.clone()].concat();
+                        if if kind(k) == 2 { !buf[..l].ends_with(&tail) } else { buf[..l] != expect[..] } {
                             down_bad += 1;
                         }
                     }
